@@ -266,6 +266,8 @@ func VerifTrackerHistory() {
 				// the record's other fields: the session the process was in before (any id, in
 				// particular that of another session of the history, or 4294967295 for none)
 				ev.Data = map[string]string{"old-ses": verifrt.Str("old-ses", 1, 2, `[0-9]`), "old-auid": "4294967295", "auid": "1000"}
+				// a LOGIN record coalesced with its SYSCALL record names the parent process as well
+				ev.Process.PPID = verifrt.Str("ppid", 0, 2, `[0-9]`)
 			}
 			// ghost
 			valid := sid == s.sid
